@@ -86,3 +86,7 @@ func (h *Handle) VerifRecvLen() int {
 	h.readLock.Unlock()
 	return n
 }
+
+// VerifOpen reports whether the client's handshake has succeeded (state open or later closed
+// after having been open is not distinguished: only open counts).
+func (c *Client) VerifOpen() bool { return c.state.Load() == clientStateOpen }
